@@ -24,10 +24,14 @@ Capture_(n, body) == [t |-> "capture", var |-> n, body |-> body]
 IfT(n, body) == [t |-> "if", cond |-> [c |-> "truthy", x |-> V(n)], then |-> body, else |-> <<>>]
 
 First2 == CHOOSE pr \in Names \X Names : pr[1] # pr[2]   \* the pair used for the copy statement
+\* value collisions on purpose: an assigned value may equal the loop variable's first value (7), a counter's value (1),
+\* the include argument ("i") or the caller datum ("d") - a binding must win by position, never by comparing values
+InclSame(n) == [t |-> "include", name |-> Lit(StrV("p")), args |-> <<[k |-> n, x |-> Lit(StrV("s"))]>>]
 Leaves ==
   {Read(n) : n \in Names} \cup {Assign_(n, Lit(StrV("s"))) : n \in Names} \cup
   {Assign_(First2[1], V(First2[2]))} \cup
-  {Inc(n) : n \in Names} \cup {Dec(First2[1])} \cup {Incl(n) : n \in Names}
+  {Assign_(First2[1], Lit(IntV(7))), Assign_(First2[1], Lit(IntV(1))), Assign_(First2[2], Lit(StrV("d"))), Assign_(First2[1], Lit(StrV("i")))} \cup
+  {Inc(n) : n \in Names} \cup {Dec(First2[1])} \cup {Incl(n) : n \in Names} \cup {InclSame(First2[1])}
 
 Compound(body) ==
   {For_(n, body) : n \in Names} \cup {Capture_(n, body) : n \in Names} \cup {IfT(First2[1], body)}
